@@ -17,6 +17,7 @@ import (
 	"fmt"
 	"math/rand"
 	"reflect"
+	"sync"
 	"time"
 
 	"github.com/fxamacker/cbor/v2"
@@ -552,6 +553,115 @@ func sameInts(a, b []int) bool {
 	return true
 }
 
+var (
+	throwMu  sync.Mutex
+	throwIDs []*m.Address
+)
+
+// throwaways returns n routable identities nobody has seen before (mined once, in parallel).
+func throwaways(n int) []*m.Address {
+	throwMu.Lock()
+	defer throwMu.Unlock()
+	if len(throwIDs) < n {
+		need := n - len(throwIDs)
+		out := make([]*m.Address, need)
+		var wg sync.WaitGroup
+		sem := make(chan struct{}, 16)
+		for i := range out {
+			wg.Add(1)
+			go func(i int) {
+				defer wg.Done()
+				sem <- struct{}{}
+				out[i] = world.NewIdentity(world.EuropePrefix)
+				<-sem
+			}(i)
+		}
+		wg.Wait()
+		throwIDs = append(throwIDs, out...)
+	}
+	return throwIDs[:n]
+}
+
+// deepCase: V - R1 - O. R1 delivers O's announcement with `total` hop records: its own outermost, and beneath it
+// total-1 records of routers with throwaway identities, each validly signed by its router for this announcement.
+// tamper > 0: one byte of the record at that depth (1 = outermost) is changed after signing.
+func deepCase(c *vf.Ctx, total, tamper int, rng *rand.Rand) map[string]any {
+	s := newScene(1, rng)
+	ids := throwaways(total - 1)
+	ctx := signingContext(s.fa)
+	atts := make([]router.AnnouncePingAttachment, total) // [0] = outermost (R1)
+	var inner []byte
+	for d := total; d >= 2; d-- {
+		id := ids[d-2]
+		at := router.AnnouncePingAttachment{Router: id.PublicAddress, Delay: uint16(1 + rng.Intn(200)), ForwardLabel: m.SwitchLabel(1 + rng.Intn(16000)),
+			ReturnLabel: m.SwitchLabel(1 + rng.Intn(16000)), NextAttachment: inner}
+		atts[d-1] = at
+		data, err := cbor.Marshal(at)
+		if err != nil {
+			panic(err)
+		}
+		sig, err := id.SignWithContext(data, ctx)
+		if err != nil {
+			panic(err)
+		}
+		if d == tamper {
+			// the record's delay, changed after its router signed it
+			at.Delay ^= 1
+			if data, err = cbor.Marshal(at); err != nil {
+				panic(err)
+			}
+		}
+		inner = append(data, sig...)
+	}
+	own := s.ownRecord(s.fa, inner, rng)
+	if tamper == 1 {
+		own[len(own)-70] ^= 1
+	}
+	if recs := decodeChain(own); len(recs) > 0 {
+		atts[0] = recs[0].att
+	}
+	data := withAppendix(s.fa, own)
+	before := tableOf(s.v)
+	s.ms.W.Inflight = nil
+	res, _ := s.ms.W.DeliverRaw(s.r1, s.v, data)
+	c.Eval(1)
+	for _, h := range res {
+		if h.Panic {
+			c.Violation(vf.Key("panic", "deep"), fmt.Sprintf("an announcement with %d hop records: the router worker panicked: %v", total, h.Err), map[string]any{"records": total, "tampered": tamper}, nil)
+		}
+	}
+	after := tableOf(s.v)
+	ev := map[string]any{"ev": "deep", "records": total, "tampered": tamper, "accepted": false, "listed": 0, "matches": false,
+		"unchanged": reflect.DeepEqual(before, after) && s.ms.W.NInflight() == 0}
+	for i := range after {
+		e := &after[i]
+		if e.DstIP != s.o.ID.IP {
+			continue
+		}
+		known := false
+		for j := range before {
+			if reflect.DeepEqual(before[j], *e) {
+				known = true
+			}
+		}
+		if known {
+			continue
+		}
+		hops := e.Path.Hops
+		ev["accepted"] = true
+		ev["listed"] = len(hops) - 2
+		ok := len(hops)-2 == total
+		for k := 0; ok && k < total; k++ {
+			h, at := hops[k+1], atts[k]
+			if h.Router != at.Router.IP || h.Delay != at.Delay || h.ForwardLabel != at.ForwardLabel || h.ReturnLabel != at.ReturnLabel {
+				ok = false
+			}
+		}
+		ev["matches"] = ok
+	}
+	return ev
+}
+
 func main() { vf.Main("C08", "model_checking", run) }
 
 func run(c *vf.Ctx) {
@@ -667,6 +777,32 @@ func run(c *vf.Ctx) {
 			c.Violation(vf.Key("panic", op), fmt.Sprintf("%s on a chain of %d: worker panic", op, L), a, nil)
 		}
 	}
+	// ---- deep chains: around the hundred layers the parser is willing to walk
+	ndeep, deepAcc := 0, 0
+	for _, total := range []int{40, 98, 99, 100, 101, 130} {
+		tampers := []int{0}
+		if total >= 98 {
+			tampers = append(tampers, total, total-1)
+			if total > 100 {
+				tampers = append(tampers, 100, 101)
+			}
+		}
+		for _, td := range tampers {
+			ev := deepCase(c, total, td, rng)
+			events = append(events, ev)
+			c.Distinct(fmt.Sprintf("deep|%d|%d", total, td))
+			ndeep++
+			if acc, _ := ev["accepted"].(bool); acc {
+				deepAcc++
+			}
+		}
+	}
+	if deepAcc == 0 {
+		c.Broken("deep chains: not one of them was accepted (a chain of 40 valid records must be)")
+	}
+	c.Stage("R-deep", map[string]any{"announcements": ndeep, "accepted": deepAcc})
+	c.Extra("deep_chains", map[string]any{"announcements": ndeep, "accepted": deepAcc})
+	c.Logf("R-deep: %d announcements with 40..130 hop records, %d accepted", ndeep, deepAcc)
 	rejectAt, inv, tres, err := c.TraceCheck("GossipAuth_Trace", "GossipAuth_Trace.cfg", events, vf.TLCOpts{Timeout: 20 * time.Minute})
 	if err != nil {
 		c.Fatal("T: %v", err)
